@@ -59,6 +59,25 @@ Classes == { Flat(ks) : ks \in Layouts } \cup { FlatX(ks) : ks \in { l \in Layou
            \cup { Chain3(Flat(ks)) : ks \in Layouts }                       \* K(M3(G3)): the middle class's declarations are in effect
            \cup UNION { { Split(ks, s) : s \in 1..Len(ks) } : ks \in { l \in Layouts : Len(l) >= 2 } }
            \cup { c \in Overrides : WellFormedCls(c) }
+\* a subclass (adding defaulted fields) of a format-mixin class whose fields refer to typing.Self: the nested documents under
+\* next / kids are documents of the SUBCLASS -- its own fields take the explicit value, or their default iff absent
+RECURSIVE SubT(_, _)
+SubT(fmt, k) ==
+  LET U == IF k = 0 THEN <<"none">> ELSE SubT(fmt, k - 1)
+      pf == << <<"a", <<"int">>, <<"val", I(1)>>, <<>> >>,
+               <<"next", <<"opt", <<"fwd", "#self", U>> >>, <<"val", None>>, <<>> >>,
+               <<"kids", <<"list", <<"fwd", "#self", U>> >>, <<"fac", L(<<>>)>>, <<>> >> >>
+      PU == IF k = 0 THEN <<"none">> ELSE <<"none">>
+      Par == <<"dc", "SP", [i \in DOMAIN pf |-> IF i = 1 THEN pf[i] ELSE <<pf[i][1], IF i = 2 THEN <<"opt", <<"fwd", "#self", <<"none">> >> >> ELSE <<"list", <<"fwd", "#self", <<"none">> >> >>, pf[i][3], pf[i][4]>>],
+               << <<"mixin", fmt>> >> >>
+  IN <<"dc", "K", pf \o << <<"x", <<"int">>, <<"val", I(42)>>, <<>> >>, <<"o", <<"opt", <<"int">> >>, <<"val", I(5)>>, <<>> >> >>,
+       << <<"mixin", fmt>>, <<"bases", <<Par>> >> >> >>
+SelfFams == { SubT(f, 2) : f \in {"dict", "orjson", "msgpack"} }
+SubDoc(x) == Dct(<< <<S("a"), I(3)>> >> \o x)
+SelfInputs == { Dct(<< <<S("next"), SubDoc(<< <<S("x"), I(7)>>, <<S("o"), None>> >>)>> >>),
+                Dct(<< <<S("next"), SubDoc(<<>>)>>, <<S("x"), I(9)>> >>),
+                Dct(<< <<S("kids"), L(<< SubDoc(<< <<S("x"), I(7)>> >>), SubDoc(<< <<S("o"), I(6)>>, <<S("next"), SubDoc(<< <<S("x"), I(8)>> >>)>> >>) >>)>> >>),
+                Dct(<<>>) }
 Good(f) == IF FType(f) = IntL THEN L(<<I(8), I(9)>>) ELSE I(40)
 
 \* per field: 0 absent, 1 explicit value, 2 explicit null
@@ -75,6 +94,7 @@ ValidSplit(C) == \A o \in Range(DcCfg(C)) : o[1] = "bases" => Len(o[2][1][3]) < 
 Init == T = <<"start">> /\ v = <<"nov">> /\ kind = "start"
 Next == \/ kind = "start" /\ T' \in { C \in Classes : ValidSplit(C) } /\ v' = v /\ kind' = "type"
         \/ kind = "type" /\ T' = T /\ v' \in AllInputs(T) /\ kind' = "input"
+        \/ kind = "start" /\ T' \in SelfFams /\ v' \in SelfInputs /\ kind' = "selfinput"
 
 Dec == Unpack(T, DefaultCx, v)
 
@@ -89,5 +109,8 @@ DefaultIffAbsent ==
 \* which fields must hold a FRESH factory result (checked by identity in the replay)
 FreshIdx == { i \in DOMAIN DcFields(T) : FDflt(DcFields(T)[i])[1] = "fac" /\ ~PairsHas(v[2], S(FName(DcFields(T)[i]))) }
 
-EmitInv == kind = "input" => PrintT(ToJson(<<"inp", T, v, Dec, IF IsOk(Dec) THEN FreshIdx ELSE {}>>))
+\* nested documents of the subclass: own fields explicit or defaulted, at every depth (on the reference)
+SelfDefaults == kind = "selfinput" => IsOk(Dec)
+EmitInv == /\ kind = "input" => PrintT(ToJson(<<"inp", T, v, Dec, IF IsOk(Dec) THEN FreshIdx ELSE {}>>))
+           /\ kind = "selfinput" => PrintT(ToJson(<<"inp", T, v, Dec, {}>>))
 =============================================================================
